@@ -26,10 +26,11 @@ Definition enc_call (M : shape) (c : rval) : option jval :=
   | _ => None
   end.
 
-(* call/de.rs:37-115.  CallVisitor::visit_map wraps the map access in FilterMap and hands it to
-   M::deserialize(MapAccessDeserializer).  FilterMap::next_key_seed reads keys as `&str` (a name
-   that needs unescaping is an error), captures "oneway" / "more" / "upgrade" (value read as bool;
-   a later occurrence overwrites an earlier one) and yields every other entry to M's visitor.
+(* call/de.rs.  CallVisitor::visit_map wraps the map access in FilterMap and hands it to
+   M::deserialize(MapAccessDeserializer).  FilterMap::next_key_seed looks at every member name in
+   place (KeySeed; since 4eaac7f a name written with escape sequences is fine - the tree as pinned
+   read names as `&str` and failed on them), captures "oneway" / "more" / "upgrade" (value read as
+   bool; a later occurrence overwrites an earlier one) and hands every other name to M's key seed.
    Every derived / Value visitor drains the map before it succeeds, and every error anywhere makes
    the whole decode fail, so the streaming is modelled as one pass that splits the members. *)
 Record cells := mk_cells { c_oneway : option bool; c_more : option bool; c_upgrade : option bool }.
@@ -40,8 +41,7 @@ Fixpoint filter_call (ms : members) (cs : cells) : option (members * cells) :=
   match ms with
   | [] => Some ([], cs)
   | (k, v) :: ms' =>
-      if needs_escape k then None                          (* next_key::<&str>() *)
-      else if String.eqb k "oneway" then
+      if String.eqb k "oneway" then
         match v with
         | JBool b => filter_call ms' (mk_cells (Some b) (c_more cs) (c_upgrade cs))
         | _ => None
@@ -104,7 +104,6 @@ Definition spec_flag (k : string) (ms : members) : option bool :=
   end.
 
 Definition spec_call (M : shape) (ms : members) : option rval :=
-  if existsb (fun m => needs_escape (fst m)) ms then None else
   if map_capable M then
     match spec_flag "oneway" ms, spec_flag "more" ms, spec_flag "upgrade" ms with
     | Some ow, Some mo, Some up =>
